@@ -405,6 +405,24 @@ def gen_pfmt_spec(rng, mode, spec):
         rng.choice([0, 1, 1, 2]))]
     if rng.random() < 0.25:
         spec["pf"] = {"strf": rng.choice(STRF_FORMATS)}
+    if (not zoned and model.BASE[mode] == "gregorian" and text and
+            1000 <= w["y"] <= 9999 and rng.random() < 0.3):
+        # "compatible with the POSIX strptime template format": leading
+        # zeros are permitted, not required, and white space matches any
+        # amount of white space (the documented fallback to the system's
+        # strptime reads these; the point it builds is in UTC, so only
+        # outputs that do not show the zone are generated)
+        import re
+        loose = re.sub(r"(?<!\d)0+(\d)", r"\1", text)
+        if rng.random() < 0.4:
+            loose = loose.replace(" ", "  ")
+        if loose != text and "%Y%m%d%H" != fmt:
+            spec["text"] = loose
+            spec["unpadded"] = True
+            spec["offsets"] = [o for o in spec["offsets"]
+                               if o["us"] is not None]
+            if spec.get("pf") and re.search(r"%[zs]", spec["pf"]["strf"]):
+                spec.pop("pf")
     return spec
 
 
@@ -1308,8 +1326,10 @@ class Sim(object):
                     neg_year_item=bool(spec.get("neg_year_item")))
                 return
         if spec["src"] in ("now", "noarg", "ref_none") or spec.get(
-                "ctime") or (spec.get("pf") or {}).get("fallback"):
+                "ctime") or (spec.get("pf") or {}).get("fallback") or (
+                spec.get("unpadded")):
             return      # the direct composition has no strftime fallback
+            #             (nor the lenient strptime one)
         # differential: the library composed directly
         try:
             with kernel.guarded():
